@@ -348,6 +348,74 @@ def _is_f64_upvar(g, k):
         return False
 
 
+def row_stride(rep, prog, rule):
+    rep.rule(rule, "the kernels reach another ROW of a view only through the view's row iterators "
+             "(iter_rows, iter_2_rows, iter_4_rows, iter_rows_with_step): no raw pointer is walked from "
+             "one row to the next with a stride computed from the view's width / height "
+             "(`ptr = ptr.add(width * components)`), which is the distance between rows only for "
+             "containers that store their rows back to back -- a cropped view of a wider image, or a "
+             "user's strided view, has another one. Pointer walks with a constant stride (the next "
+             "component / pixel of the same row) are what the kernels do")
+    n = 0
+    PTR = ("add", "offset", "wrapping_add", "wrapping_offset", "sub", "wrapping_sub", "byte_add")
+    for f in sorted(prog.fns.values(), key=lambda x: x.id):
+        root = f
+        while root is not None and root.kind == "closure":
+            root = prog.fns.get(root.d.get("parent"))
+        if root is None or not re.match(r"^(convolution|alpha|color|change_components_type)::", root.name):
+            continue
+        sym = None
+        for c in f.calls():
+            m = c.method or (c.name or "").rsplit("::", 1)[-1]
+            if m not in PTR or len(c.args) != 2 or "ptr" not in (c.name or ""):
+                continue
+            a0 = c.args[0]
+            if a0[0] not in ("c", "m") or len(a0[1]) != 1 or not c.dest or len(c.dest) != 1:
+                continue
+            P, D = a0[1][0], c.dest[0]
+            for _ in range(3):      # `_t = copy ptr; _r = add(move _t, k); ptr = move _r`
+                ds = [d for d in f.defs().get(P, []) if d[3]]
+                if len(ds) == 1 and ds[0][2][0] == "use" and ds[0][2][1][0] in ("c", "m") \
+                        and len(ds[0][2][1][1]) == 1 and not f.local_name(P):
+                    P = ds[0][2][1][1][0]
+                else:
+                    break
+            walk = (P == D)
+            if not walk and c.target is not None:
+                for st in f.blocks[c.target]["s"]:
+                    if st[0] == "a" and st[1] == [P] and st[2][0] == "use" and st[2][1][0] in ("c", "m") \
+                            and st[2][1][1] == [D]:
+                        walk = True
+            if not walk:
+                continue
+            n += 1
+            rep.touch(f)
+            sym = sym or Sym(f)
+            e = sym.operand(c.args[1], (c.bb, "term"))
+            if f.kind == "closure":
+                from .c14 import _with_captures
+                e = _with_captures(prog, f, e)
+            key = "%s|%s" % (f.name, f.local_name(P) or "_%d" % P)
+            if _has_size_getter(e):
+                rep.bad(rule, key + "|width-stride", c.at,
+                        "%s walks the pointer `%s` by %s: a row stride derived from the view's size; the "
+                        "rows of a cropped view (or any strided view) are further apart than their width"
+                        % (f.name, f.local_name(P) or "_%d" % P, fmt(e)[:80]))
+            else:
+                rep.ok(rule, key, c.at, "stride %s" % fmt(e)[:60])
+    rep.floor(rule, "pointer walks in the kernels", n, 4)
+
+
+def _has_size_getter(e):
+    if not isinstance(e, tuple) or not e:
+        return False
+    if e[0] in ("call", "callat"):
+        nm = e[1] if e[0] == "call" else e[2]
+        if nm in ("width", "height"):
+            return True
+    return any(_has_size_getter(x) for x in e if isinstance(x, tuple))
+
+
 def run(rep, tier):
     cfgs = ["x86"] if tier == "quick" else ["x86", "x86-rayon", "arm", "wasm"]
     for cfg, prog in programs(cfgs):
@@ -356,6 +424,7 @@ def run(rep, tier):
         rep.call(typed_image_rows, rep, prog, "C13.view-offsets")
         rep.call(index_rules.cropped_row_slices, rep, prog, "C13.view-offsets-cropped")
         rep.call(dispatch_pure, rep, prog, "C13.dispatch-pure")
+        rep.call(row_stride, rep, prog, "C13.row-stride")
         # the dynamic entry point does what the typed one does: right type, same operation
         from ..engines import type_tables
         rep.call(type_tables.t_types, rep, prog, "C13.table")
